@@ -125,6 +125,137 @@ def gen_cases(rng: random.Random, n: int) -> list[str]:
     return out
 
 
+def gen_dict_cases(rng: random.Random, n: int) -> list[str]:
+    """dict[str, V] (ad_set / ad_get / ad_find in PyPrims: insertion order, replacement in place, KeyError)."""
+    out: list[str] = []
+    keys = ["", "a", "b", "ab", "ba", "c"]
+    eqb = "(list_eqb Z.eqb)"
+    for _ in range(n):
+        d: dict[str, int] = {}
+        for _ in range(rng.randint(0, 5)):
+            d[rng.choice(keys)] = rng.randint(0, 9)
+        before = od_lit(d)  # same literal shape: [(key, value); ..] in insertion order
+        k = rng.choice(keys)
+        if rng.random() < 0.5:
+            v = rng.randint(0, 9)
+            d[k] = v
+            out.append(f"ad_set (V := Z) {eqb} {kstr(k)} ({v}) {before} = {od_lit(d)}")
+        else:
+            try:
+                res = f"Val ({d[k]})"
+            except KeyError:
+                res = "Exn KeyError"
+            out.append(f"ad_get (V := Z) {eqb} {kstr(k)} {before} = {res}")
+    return out
+
+
+def gen_msg_cases(rng: random.Random, n: int) -> list[str]:
+    """Reading protobuf message objects (msg_int / msg_str / msg_has / msg_which / msg_field / pb_kind / msg_rep in
+    PyPrims) against the real generated classes: a random history of assignments builds the object and, with msg_set
+    and the oneof groups of the descriptor, the PyPrims value; then one read of each kind is compared."""
+    from pyjelly.jelly import rdf_pb2 as pb
+
+    out: list[str] = []
+
+    def group_of(cls, field: str) -> list[str]:
+        fd = cls.DESCRIPTOR.fields_by_name[field]
+        if fd.containing_oneof is not None:
+            return [f.name for f in fd.containing_oneof.fields]
+        return [field]
+
+    def gl(names) -> str:
+        return "[" + "; ".join(f'"{x}"%string' for x in names) + "]"
+
+    def s() -> str:
+        return "".join(rng.choice("ab") for _ in range(rng.randint(0, 2)))
+
+    def iri():
+        a, b = rng.randint(0, 3), rng.randint(0, 3)
+        return pb.RdfIri(prefix_id=a, name_id=b), ("(PMsg \"RdfIri\" ([] " + (f'++ [("prefix_id"%string, PInt ({a}))]' if True else "") +
+                                                   f' ++ [("name_id"%string, PInt ({b}))]))')
+
+    for _ in range(n):
+        kind = rng.choice(["lit", "triple", "quad", "gstart", "row"])
+        if kind == "lit":
+            m = pb.RdfLiteral()
+            term = 'PMsg "RdfLiteral" []'
+            for _ in range(rng.randint(0, 4)):
+                f = rng.choice(["lex", "langtag", "datatype"])
+                if f == "datatype":
+                    v = rng.randint(0, 3)
+                    m.datatype = v
+                    val = f"PInt ({v})"
+                else:
+                    v = s()
+                    setattr(m, f, v)
+                    val = f"PStr {kstr(v)}"
+                term = f'msg_set {gl(group_of(pb.RdfLiteral, f))} "{f}" ({val}) ({term})'
+            which = m.WhichOneof("literalKind")
+            grp = gl(group_of(pb.RdfLiteral, "langtag"))
+            out.append(f'msg_which (K := list Z) {grp} ({term}) = ' + ("None" if which is None else f'Some "{which}"%string'))
+            out.append(f'msg_has (K := list Z) "datatype" ({term}) = {"true" if m.HasField("datatype") else "false"}')
+            out.append(f'msg_str (K := list Z) [] "langtag" ({term}) = {kstr(m.langtag)}')
+            out.append(f'msg_str (K := list Z) [] "lex" ({term}) = {kstr(m.lex)}')
+            out.append(f'msg_int (K := list Z) "datatype" ({term}) = ({m.datatype})')
+        elif kind in ("triple", "quad", "gstart"):
+            cls = {"triple": pb.RdfTriple, "quad": pb.RdfQuad, "gstart": pb.RdfGraphStart}[kind]
+            m = cls()
+            term = f'PMsg "{cls.DESCRIPTOR.name}" []'
+            fields = [f.name for f in cls.DESCRIPTOR.fields]
+            for _ in range(rng.randint(0, 5)):
+                f = rng.choice(fields)
+                fd = cls.DESCRIPTOR.fields_by_name[f]
+                if fd.type == fd.TYPE_STRING:
+                    v = s()
+                    setattr(m, f, v)
+                    val = f"PStr {kstr(v)}"
+                elif fd.message_type.name == "RdfIri":
+                    o, val = iri()
+                    getattr(m, f).CopyFrom(o)
+                elif fd.message_type.name == "RdfLiteral":
+                    lx = s()
+                    getattr(m, f).CopyFrom(pb.RdfLiteral(lex=lx))
+                    val = f'PMsg "RdfLiteral" [("lex"%string, PStr {kstr(lx)})]'
+                else:  # RdfTriple, RdfDefaultGraph
+                    getattr(m, f).CopyFrom(fd.message_type._concrete_class())
+                    val = f'PMsg "{fd.message_type.name}" []'
+                term = f'msg_set {gl(group_of(cls, f))} "{f}" ({val}) ({term})'
+            for oneof in cls.DESCRIPTOR.oneofs:
+                grp = gl([f.name for f in oneof.fields])
+                which = m.WhichOneof(oneof.name)
+                out.append(f'msg_which (K := list Z) {grp} ({term}) = ' + ("None" if which is None else f'Some "{which}"%string'))
+                if which is not None:
+                    got = getattr(m, which)
+                    knd = "str" if isinstance(got, str) else type(got).DESCRIPTOR.name
+                    out.append(f'option_map (pb_kind (K := list Z)) (msg_field "{which}" ({term})) = Some "{knd}"%string')
+                    if knd == "RdfIri":
+                        out.append(f'option_map (msg_int (K := list Z) "name_id") (msg_field "{which}" ({term})) = Some ({got.name_id})')
+                    if knd == "str":
+                        out.append(f'option_map (pb_as_str (K := list Z) []) (msg_field "{which}" ({term})) = Some {kstr(got)}')
+        else:
+            # a frame of rows: the repeated field and WhichOneof("row") of each
+            fr = pb.RdfStreamFrame()
+            rows_t = []
+            members = [f.name for f in pb.RdfStreamRow.DESCRIPTOR.oneofs_by_name["row"].fields]
+            for _ in range(rng.randint(0, 3)):
+                row = fr.rows.add()
+                t = 'PMsg "RdfStreamRow" []'
+                for _ in range(rng.randint(0, 2)):
+                    f = rng.choice(members)
+                    getattr(row, f).SetInParent()
+                    sub = pb.RdfStreamRow.DESCRIPTOR.fields_by_name[f].message_type.name
+                    t = f'msg_set {gl(members)} "{f}" (PMsg "{sub}" []) ({t})'
+                rows_t.append((row, t))
+            ft = 'PMsg "RdfStreamFrame" [("rows"%string, PRep [' + "; ".join(t for _, t in rows_t) + "])]"
+            exp = "[" + "; ".join("None" if r.WhichOneof("row") is None else f'Some "{r.WhichOneof("row")}"%string' for r, _ in rows_t) + "]"
+            out.append(f'map (msg_which (K := list Z) {gl(members)}) (msg_rep "rows" ({ft})) = {exp}')
+            kinds = "[" + "; ".join("None" if r.WhichOneof("row") is None else f'Some "{type(getattr(r, r.WhichOneof("row"))).DESCRIPTOR.name}"%string'
+                                    for r, _ in rows_t) + "]"
+            out.append(f'map (fun r => match msg_which (K := list Z) {gl(members)} r with Some f => option_map (pb_kind (K := list Z)) (msg_field f r) | None => None end) '
+                       f'(msg_rep "rows" ({ft})) = {kinds}')
+    return out
+
+
 def coq_file(cases: list[str]) -> str:
     body = ["From PJ.Tie Require Import PyPrims.", "Local Open Scope Z_scope."]
     for i, c in enumerate(cases):
